@@ -155,7 +155,7 @@ class World:
             out.append(l.s2c)
         return out
 
-    def make_client(self, connect_order=None):
+    def make_client(self, connect_order=None, between=None):
         """connect_order: None (both connections are established at once) or a sequence such as ("ctl", "blob") /
         ("blob", "ctl"): the connections are established in that order, with everything in flight delivered in between"""
         from indi.client.client import Client
@@ -164,9 +164,12 @@ class World:
         c = Client(conns["ctl"], conns["blob"])
         t = self.loop.create_task(c.start())
         self.settle()
-        for which in connect_order or ():
+        for k, which in enumerate(connect_order or ()):
             conns[which].gate.set()
             self.settle()
+            if between is not None and k == 0:
+                between()  # what the devices do while only one of the two connections is up
+                self.settle()
         if not t.done():
             raise HandshakeFailed("Client.start() did not complete")
         t.result()
